@@ -1214,6 +1214,9 @@ Section Proofs.
     - (* EmplaceBack *) unfold upd, emplace_back.
       destruct (push_back_ok _ _ x Ht) as (s & Hc & Hr). rewrite Hc. cbn [bind].
       eexists _, _. split; [reflexivity|]. rewrite target_mk, other_mk. auto.
+    - (* EmplaceBackSelf *) unfold upd, emplace_back_self.
+      destruct (push_back_self_ok _ _ i Ht Hv) as (s & Hc & Hr). rewrite Hc. cbn [bind].
+      eexists _, _. split; [reflexivity|]. rewrite target_mk, other_mk. auto.
     - (* Insert *)
       destruct (insert_ok _ _ pos l Ht Hv) as (s & Hc & Hr). rewrite Hc. cbn [bind].
       eexists _, _. split; [reflexivity|]. rewrite target_mk, other_mk. auto.
@@ -1237,6 +1240,7 @@ Section Proofs.
   Lemma valid_op_b_spec : forall o tg, valid_op_b o tg = true <-> valid_op o tg.
   Proof.
     intros o tg. destruct o; cbn; try (split; auto; fail).
+    - apply Nat.ltb_lt.
     - apply Nat.ltb_lt.
     - apply Nat.leb_le.
     - apply Nat.ltb_lt.
